@@ -416,11 +416,19 @@ def r5(prog, run):
 def r6(prog, run):
     rid = run.rule('C14.R6', 'the HMAC helper never pads with a negative size: keys longer than the block are replaced by their hash (RFC 2104), or the work is '
                              'delegated to QMessageAuthenticationCode', floor=1)
-    f = prog.fn('generateHmac', unit='QXmppUtils.cpp')
+    top = prog.fn('generateHmac', unit='QXmppUtils.cpp')
     run.instance(rid)
-    if any(True for _ in f.calls('QMessageAuthenticationCode::hash')):
-        run.ok(rid, f.loc(), 'delegates to QMessageAuthenticationCode')
+    if any(True for _ in top.calls('QMessageAuthenticationCode::hash')):
+        run.ok(rid, top.loc(), 'delegates to QMessageAuthenticationCode')
         return
+    # the key preparation may live in a file-static helper of generateHmac: the function that compares the key size / builds the pad is analysed
+    cands = [top] + [g for _, n in top.calls() for g in prog.callee_fns(top, n) if g.entry is not None and g.file == top.file and g.id != top.id]
+    f = top
+    for g in cands:
+        if any(g.nodes[i]['k'] == 'cond' and '::size()' in g.fmt(g.nodes[i]['c']) for i in range(len(g.nodes))) or \
+                any(n.get('cls') == 'QByteArray' and len(n.get('args', [])) == 2 and g.binop(n['args'][0]) and g.binop(n['args'][0])[0] == '-' for _, n in g.all_nodes('construct')):
+            f = g
+            break
     pads = []
     for i, n in f.all_nodes('construct'):
         if n.get('cls') == 'QByteArray' and len(n.get('args', [])) == 2:
@@ -699,6 +707,16 @@ def r10(prog, run, dec):
     for i, n in list(dec.all_nodes('assign')) + [(i, n) for i, n in dec.calls() if n.get('op') == '=' and len(n.get('opargs', [])) == 2]:
         l = dec.nodes[dec.skip(n['l'] if n['k'] == 'assign' else n['opargs'][0])]
         r = n['r'] if n['k'] == 'assign' else n['opargs'][1]
+        if l['k'] == 'var' and l.get('vk') == 'local' and (dec.defs().get(l.get('decl')) or {}).get('ref'):
+            # a reference that selects one of several members (QString &text = cond ? m_realm : m_software ...): one write per member it can denote
+            init = (dec.defs().get(l['decl']) or {}).get('init')
+            members = sorted({dec.nodes[j]['name'] for j in dec.walk(init) if dec.nodes[j]['k'] == 'mem'}) if init is not None else []
+            if members and any(x in (l.get('t') or '') for x in ('QString', 'QByteArray')):
+                l = {'k': 'mem', 't': l.get('t'), 'name': '/'.join(members)}
+                n_w += len(members) - 1
+                for _ in members[1:]:
+                    run.instance(rid)
+                    run.ok(rid, dec.loc(i), 'one of %s, written through a reference' % l['name'], nontrivial=False)
         if l['k'] != 'mem' or not any(x in (l.get('t') or '') for x in ('QString', 'QByteArray')):
             continue
         n_w += 1
